@@ -76,6 +76,14 @@ def itemAssign : List Item → List (List Byte) → List Byte → Option (List I
           | some k' => some (l ++ [.mk (some e) none k'])
           | none => none
 
+/-- `config::root::assign` of a text value with the check of the element lengths `mpt_config_item_reserve` makes
+    before it reserves anything: list afterwards, success -/
+def itemAssignE (l : List Item) (k : List (List Byte)) (v : List Byte) : List Item × Bool :=
+  if !k.all elemFits then (l, false)
+  else match itemAssign l k v with
+    | some l' => (l', true)
+    | none => (l, false)
+
 /-- `config::root::remove`: children and value of the element go, the slot keeps its name -/
 def itemWipe : List Item → List (List Byte) → Option (List Item)
   | _, [] => none
